@@ -15,6 +15,11 @@ open Tree Driver
 structure DState where
   m : MState := {}
   v : State := {}       -- the implementation's previous snapshot
+  -- history of the implementation's own answers, for the C07 clauses on the children wrappers
+  accepted : Nat → Nat := fun _ => 0      -- `block` answered ok
+  drainedF : Nat → Bool := fun _ => false -- asked to drain (directly or through drain_children*)
+  stopF : Nat → Bool := fun _ => false    -- asked to stop (directly or through stop_children*)
+  onlyC07 : Bool := false
 
 def showRes : Res → String
   | .unit => "unit" | .ok => "ok" | .err => "err" | .tt => "true" | .ff => "false"
@@ -26,8 +31,25 @@ def showActor (m : MState) (i : Nat) : String :=
   let kids := match m.t.kids i with | some ks => showNats (sortNats ks) | none => "-"
   s!"{i}:{(m.t.status i).name}:{sup}:{kids}:{(m.act i).handled}"
 
-def observe (m : MState) (r : Res) : String :=
-  s!"r={showRes r} |" ++ String.join ((List.range m.t.n).map fun i => " " ++ showActor m i)
+def sortStrs (l : List String) : List String := (l.toArray.qsort (· < ·)).toList
+
+def showEvs (l : List (Nat × Nat × Why)) : String :=
+  if l.isEmpty then "-" else ",".intercalate (sortStrs (l.map fun e => s!"{e.1}>{e.2.1}:{e.2.2.text}"))
+
+def showWaiters (m : MState) : String :=
+  if m.waiters.isEmpty then "-" else ",".intercalate (m.waiters.map fun w => if w.done m then "done" else "pending")
+
+def observe (old m : MState) (r : Res) : String :=
+  s!"r={showRes r} ev={showEvs (m.evs.drop old.evs.length)} w={showWaiters m} |" ++
+    String.join ((List.range m.t.n).map fun i => " " ++ showActor m i)
+
+def parseKOp? (ws : List String) : Option KOp :=
+  match ws with
+  | ["stopkids", a] => a.toNat?.map .stopKids
+  | ["drainkids", a] => a.toNat?.map .drainKids
+  | ["stopkidswait", a] => a.toNat?.map .stopKidsWait
+  | ["drainkidswait", a] => a.toNat?.map .drainKidsWait
+  | _ => none
 
 def parseMOp? (ws : List String) : Option MOp :=
   match ws with
@@ -61,11 +83,85 @@ def parseActor? (s : String) : Option (Nat × Status × Option Nat × List Nat) 
     pure (i, st, sup, kids)
   | _ => none
 
+/-- handled counts, by actor -/
+def parseHandled (s : String) : Nat → Nat :=
+  match s.splitOn " |" with
+  | [_, rest] =>
+    let hs := (words rest).map fun w => match splitOnChar w ':' with
+      | [_, _, _, _, h] => h.toNat?.getD 0
+      | _ => 0
+    fun i => hs.getD i 0
+  | _ => fun _ => 0
+
+def parseWhy? (s : String) : Option Why :=
+  [Why.stopped, .drained, .killed, .failed, .cancelled].find? (·.text == s)
+
+/-- `ev=who>to:reason,…` of an implementation line -/
+def parseEvs (s : String) : Option (List (Nat × Nat × Why)) :=
+  match (words ((s.splitOn " |").headD "")).find? (·.startsWith "ev=") with
+  | none => some []
+  | some w =>
+    let body := (w.drop 3).toString
+    if body == "-" then some [] else
+    (splitOnChar body ',').mapM fun e =>
+      match splitOnChar e ':' with
+      | [wt, why] => match splitOnChar wt '>' with
+        | [a, b] => do pure (← a.toNat?, ← b.toNat?, ← parseWhy? why)
+        | _ => none
+      | _ => none
+
+/-- the C07 clauses for the children wrappers, on the implementation's own answers -/
+def oracleC07 (st : DState) (cur : State) (ws : List String) (impl : String) : List String :=
+  let prev := st.v
+  let handled := parseHandled impl
+  match parseEvs impl with
+  | none => ["C07.unparsable-events"]
+  | some evs =>
+    (match ws with
+     | [k, a] =>
+       match a.toNat? with
+       | some a =>
+         if k == "drainkids" || k == "drainkidswait" then
+           (if drainKidsOk prev cur a then [] else ["C07.drained-child-not-draining"])
+           ++ (if drainKidsReasonsOk prev a evs then [] else ["C07.drained-child-wrong-reason"])
+         else if k == "release" then
+           -- the actor ended its message loop by itself in this op
+           (if cur.status a == .stopped && prev.status a != .stopped && st.drainedF a && !st.stopF a
+                && !backlogOk (st.accepted a) (handled a)
+            then ["C07.drained-child-dropped-backlog"] else [])
+           ++ (if cur.status a == .stopped && prev.status a == .draining && st.drainedF a && !st.stopF a
+                && evs.any (fun e => e.1 == a && e.2.2 != .drained)
+               then ["C07.drained-child-wrong-reason"] else [])
+         else []
+       | none => []
+     | _ => [])
+
+/-- bookkeeping of what the implementation was asked and answered -/
+def track (st : DState) (ws : List String) (ir : String) : DState :=
+  let kidsPrev (a : Nat) : List Nat := (st.v.kids a).getD []
+  match ws with
+  | ["block", a] => match a.toNat? with
+    | some a => if ir == "ok" then { st with accepted := upd st.accepted a (st.accepted a + 1) } else st
+    | none => st
+  | [k, a] => match a.toNat? with
+    | some a =>
+      if k == "drain" then { st with drainedF := upd st.drainedF a true }
+      else if k == "stop" then { st with stopF := upd st.stopF a true }
+      else if k == "drainkids" || k == "drainkidswait" then
+        { st with drainedF := fun x => st.drainedF x || (kidsPrev a).contains x }
+      else if k == "stopkids" || k == "stopkidswait" then
+        { st with stopF := fun x => st.stopF x || (kidsPrev a).contains x }
+      else st
+    | none => st
+  | _ => st
+
 /-- the implementation's snapshot as a `Tree.State` (closed and empty child sets look alike) -/
 def parseSnapshot? (s : String) : Option (String × State) :=
   match s.splitOn " |" with
   | [r, rest] => do
-    let r ← if r.startsWith "r=" then some (r.drop 2).toString else none
+    let r ← match words r with
+      | r0 :: _ => if r0.startsWith "r=" then some (r0.drop 2).toString else none
+      | [] => none
     let as ← (words rest).mapM parseActor?
     -- entries must be numbered 0..n-1
     if (as.map (·.1)) != List.range as.length then none else
@@ -241,32 +337,49 @@ def raceStep (r : Race) (impl : String) : StepOut :=
 
 def step (st : DState) (op impl : String) : DState × StepOut :=
   match (words op).filter (fun w => !w.startsWith "h=") with
-  | ["case", _] => ({}, { model := "ok" })
+  | ["case", _] => ({ onlyC07 := st.onlyC07 }, { model := "ok" })
   | "race" :: ws =>
     match parseRace? ws with
     | some r => (st, raceStep r impl)
     | none => (st, { model := "bad-op" })
   | ws =>
-    match parseMOp? ws with
+    -- a basic macro op or one of the children wrappers
+    let stepd : Option (MState × Res × MOp) :=
+      match parseMOp? ws with
+      | some mop => let (m', r) := mstep codeFixed st.m mop; some (m', r, mop)
+      | none => (parseKOp? ws).map fun k => (kstep codeFixed st.m k, Res.unit, MOp.hold 0)
+    match stepd with
     | none => (st, { model := "bad-op" })
-    | some mop =>
-      let (m', r) := mstep codeFixed st.m mop
-      let obs := observe m' r
+    | some (m', r, mop) =>
+      let obs := observe st.m m' r
       match parseSnapshot? impl with
       | none => ({ st with m := m' }, { model := obs, oracle := ["unparsable"] })
       | some (ir, cur) =>
-        let orc := oracle st.v cur mop ir
+        let c07 := oracleC07 st cur ws impl
+        let orc := if st.onlyC07 then c07 else oracle st.v cur mop ir ++ c07
         -- non-trivial: an exit that took at least one other actor with it, a refused link / spawn,
-        -- a relink
+        -- a relink, a children wrapper that had somebody to act on
         let stoppedBefore := (List.range st.m.t.n).countP (fun i => st.m.t.status i == .stopped)
         let stoppedAfter := (List.range m'.t.n).countP (fun i => m'.t.status i == .stopped)
         let nt := stoppedAfter ≥ stoppedBefore + 2 || r == .ff || r == .err ||
           (match mop with
            | .link c _ => (st.m.t.sup c).isSome && r == .tt
-           | _ => false)
-        ({ m := m', v := cur }, { model := obs, oracle := orc, nontrivial := nt })
+           | _ => false) ||
+          (match parseKOp? ws with
+           | some (.stopKids a) | some (.drainKids a) | some (.stopKidsWait a) | some (.drainKidsWait a) =>
+             !(kidsOf st.m a).isEmpty
+           | none => false)
+        let st' := track st ws ir
+        ({ st' with m := m', v := cur },
+         { model := if st.onlyC07 then impl else obs, oracle := orc, nontrivial := nt })
 
 def run (ops impl : Array String) : IO Tally :=
   replay ({} : DState) step ops impl
+
+/-- the same engine judged by the C07 clauses only (registered under C07) -/
+def runC07 (ops impl : Array String) : IO Tally :=
+  replay ({ onlyC07 := true } : DState) (fun st op impl =>
+    let (st', out) := step st op impl
+    ({ st' with onlyC07 := true }, out)) ops impl
 
 end Driver.C05
